@@ -367,8 +367,13 @@ def r4_for_iter(text):
         close = match_close(m, j)
         body = text[j + 1:close]
         it = 'vx_it%d' % n
-        new = ('let mut %s = %s;\nloop {\nmatch %s.next() {\nSome(%s) => {%s}\nNone => { break; }\n}\n}'
-               % (it, expr, it, patn, body))
+        if expr.startswith('&mut '):
+            # `impl Iterator for &mut I` forwards `next` to I: call it on the place itself
+            new = ('loop {\nmatch %s.next() {\nSome(%s) => {%s}\nNone => { break; }\n}\n}'
+                   % (expr[5:].strip(), patn, body))
+        else:
+            new = ('let mut %s = %s;\nloop {\nmatch %s.next() {\nSome(%s) => {%s}\nNone => { break; }\n}\n}'
+                   % (it, expr, it, patn, body))
         text = text[:mo.start()] + new + text[close + 1:]
         pos = mo.start() + len('let mut ')
         n += 1
@@ -523,7 +528,57 @@ def r3v_for_vec(text):
     return text, n
 
 
+def r6p_position(text):
+    """`E.iter().position(F)` -> `vx_position(&E, F)` (specified generic helper: first index whose element satisfies F)"""
+    n = 0
+    while True:
+        m = mask(text)
+        j = m.find('.iter().position(')
+        if j < 0:
+            break
+        a = _receiver_start(m, j)
+        recv = text[a:j]
+        p = j + len('.iter().position(') - 1
+        q = match_close(m, p)
+        inner = text[p + 1:q]
+        text = text[:a] + 'vx_position(&' + recv + ', ' + inner + ')' + text[q + 1:]
+        n += 1
+    return text, n
+
+
+def r4n_name_for_iter(text):
+    """`for X in E {` -> `for X in vx_itN: E {`: Verus syntax that names the loop's ghost iterator so that an
+    invariant can mention the elements consumed so far (`vx_itN.history@`); no semantic change."""
+    n = 0
+    pos = 0
+    pat = re.compile(r'(?<![A-Za-z0-9_])for\s+')
+    while True:
+        m = mask(text)
+        mo = pat.search(m, pos)
+        if not mo:
+            break
+        k = mo.end()
+        depth = 0
+        while True:
+            if m[k] in '([':
+                depth += 1
+            elif m[k] in ')]':
+                depth -= 1
+            elif depth == 0 and m.startswith(' in ', k):
+                break
+            k += 1
+            if k >= len(m):
+                raise ExtractError('R4N: malformed for')
+        ins = 'vx_it%d: ' % n
+        text = text[:k + 4] + ins + text[k + 4:]
+        pos = k + 4 + len(ins)
+        n += 1
+    return text, n
+
+
 RULES = {
+    'R4N': r4n_name_for_iter,
+    'R6P': r6p_position,
     'R3V': r3v_for_vec,
     'R11': r11_events_commit,
     'R3': r3_enumerate,
